@@ -597,6 +597,8 @@ def _rep(a, b):
 
 
 WITNESSES = [
+    ("completion also demands a screen file", ORCH_MOD,
+     _rep("    if len(screen_metadata) == 0:\n        return None", "    if len(screen_metadata) == 0 or get_screen_from_job_output(output_dir) is None:\n        return None"), ["R8"]),
     ("training screen preferred over the advanced one", ORCH_MOD, _rep("    if len(advanced_screen_glob) > 0:\n        return advanced_screen_glob[0]\n    else:\n        return training_screen_glob[0]", "    if len(training_screen_glob) > 0:\n        return training_screen_glob[0]\n    else:\n        return advanced_screen_glob[0]"), ["R7"]),
     ("iteration dirs in string order", ORCH_MOD, _rep("    iter_dirs = sorted(iter_dirs, key=dir_sort_key)\n", "    iter_dirs = sorted(iter_dirs)\n"), ["R6"]),
     ("plate index reset per iteration dir", ORCH_MOD, _rep("        plate_dirs = sorted(plate_dirs, key=dir_sort_key)\n\n        for idx, plate_dir", "        plate_dirs = sorted(plate_dirs, key=dir_sort_key)\n\n        current_plate_idx = 0\n\n        for idx, plate_dir"), ["R2"]),
